@@ -594,7 +594,9 @@ def interchange_session(sid: int, seed: int) -> dict:
     s = MSession(sid, seed)
     var = rng.choice(["python_version", "python_full_version", "platform_release", "sys_platform", "os_name"])
     pool = VERSION_VARS.get(var) or STRING_VARS[var]
-    op = rng.choice(["<", "<=", ">", ">=", "==", "!="] if var in VERSION_VARS else ["==", "!="])
+    # ordering operators on string variables are plain string comparisons (valid PEP 508, evaluated the same way by
+    # packaging); they only appear here, where two spellings of one atom are compared, never in the algebra sessions
+    op = rng.choice(["<", "<=", ">", ">=", "==", "!="] if (var in VERSION_VARS or rng.random() < 0.5) else ["==", "!="])
     v = rng.choice(pool)
     t1, t2 = f'{var} {op} "{v}"', f'"{v}" {REFLECT[op]} {var}'
     partner_vars = ["python_version", "python_full_version"] if var.startswith("python") else [var]
